@@ -390,4 +390,66 @@ theorem next_sim {L : Layout} {rs : List Bytes} {f : Bytes} (g : Good L rs) {a :
     · simp [absStep]
     · simpa [absStep, gotoNext] using hrel2
 
+
+/-- a history only seeks to positions of records (or the end position) -/
+def OpOK (rs : List Bytes) : Op → Prop
+  | .seek i => i ≤ rs.length
+  | _ => True
+
+theorem step_sim {L : Layout} {rs : List Bytes} (g : Good L rs) {a : AState} {s : Rd}
+    (hrel : Rel L rs (encode L rs) a s) (op : Op) (hop : OpOK rs op) :
+    ∃ s', step (encode L rs) s (concOp L rs op) = (some s', (absStep L rs a op).2)
+      ∧ Rel L rs (encode L rs) (absStep L rs a op).1 s' := by
+  cases op with
+  | tell =>
+    refine ⟨s, ?_, hrel⟩
+    simp only [concOp, step, absStep, tellLr, hrel.1]
+    cases a.cur <;> rfl
+  | seek i =>
+    exact ⟨(seekLr s (tellOf L rs i)).1, rfl, seek_sim g hrel i hop⟩
+  | read n =>
+    by_cases he : a.ph = .eof
+    · have hs : s.isEOF = true := by
+        have := hrel.2.2; rw [he] at this; exact this.1
+      refine ⟨s, ?_, by simpa [absStep, he] using hrel⟩
+      simp [concOp, step, readLrBytes, preamble, hs, absStep, he, errReply]
+    · obtain ⟨s', e1, h1⟩ := read_sim g hrel n he
+      rcases hx : absRead rs a n with ⟨a', b'⟩
+      rw [hx] at e1 h1
+      cases b' with
+      | none => exact ⟨s', by simp [concOp, step, e1, absStep, he, hx], by simpa [absStep, he, hx] using h1⟩
+      | some b => exact ⟨s', by simp [concOp, step, e1, absStep, he, hx], by simpa [absStep, he, hx] using h1⟩
+  | skip n =>
+    by_cases he : a.ph = .eof
+    · have hs : s.isEOF = true := by
+        have := hrel.2.2; rw [he] at this; exact this.1
+      refine ⟨s, ?_, by simpa [absStep, he] using hrel⟩
+      simp [concOp, step, skipLrBytes, preamble, hs, absStep, he, errReply]
+    · obtain ⟨s', e1, h1⟩ := skip_sim g hrel n he
+      rcases hx : absRead rs a n with ⟨a', b'⟩
+      rw [hx] at e1 h1
+      cases b' with
+      | none => exact ⟨s', by simp [concOp, step, e1, absStep, he, hx], by simpa [absStep, he, hx] using h1⟩
+      | some b => exact ⟨s', by simp [concOp, step, e1, absStep, he, hx], by simpa [absStep, he, hx] using h1⟩
+  | next =>
+    by_cases he : a.ph = .eof
+    · have hs : s.isEOF = true := by
+        have := hrel.2.2; rw [he] at this; exact this.1
+      refine ⟨s, ?_, by simpa [absStep, he] using hrel⟩
+      simp [concOp, step, skipToNextLr, skipLrBytes, preamble, hs, absStep, he, errReply]
+    · obtain ⟨s', c, e1, e2, h1⟩ := next_sim g hrel he
+      exact ⟨s', by simp only [concOp, step, e1, e2], h1⟩
+
+theorem run_sim {L : Layout} {rs : List Bytes} (g : Good L rs) : ∀ (ops : List Op) (a : AState) (s : Rd),
+    Rel L rs (encode L rs) a s → (∀ op ∈ ops, OpOK rs op) →
+    run (encode L rs) (some s) (ops.map (concOp L rs)) = absRun L rs a ops := by
+  intro ops
+  induction ops with
+  | nil => intro a s _ _; rfl
+  | cons op ops ih =>
+    intro a s hrel hok
+    obtain ⟨s', e1, h1⟩ := step_sim g hrel op (hok op (by simp))
+    simp only [List.map_cons, run, absRun, e1]
+    rw [ih _ s' h1 (fun o ho => hok o (List.mem_cons_of_mem _ ho))]
+
 end TD.C05
